@@ -257,11 +257,63 @@ Proof.
     now rewrite bmem_rev.
 Qed.
 
-Lemma valid_child_name_idx p i q :
+(* str(n) has no leading zero when n <> 0 *)
+Definition head_nonzero (ds : str) : Prop := match ds with c :: _ => beqb c "0" = false | [] => False end.
+
+Lemma digit_of_nonzero (d : N) : (0 < d < 10)%N -> beqb (digit_of d) "0" = false.
+Proof.
+  intros [H0 H]. destruct (small_cases d H) as [->|[->|[->|[->|[->|[->|[->|[->|[->| ->]]]]]]]]];
+    try reflexivity. lia.
+Qed.
+
+Lemma N_to_str_aux_head f : forall n, (0 < n < 2 ^ N.of_nat f)%N -> head_nonzero (N_to_str_aux f n []).
+Proof.
+  induction f as [|f IH]; intros n [H0 Hn].
+  - change (2 ^ N.of_nat 0)%N with 1%N in Hn. lia.
+  - cbn [N_to_str_aux]. destruct (N.eqb_spec (n / 10) 0) as [E|E].
+    + cbn [head_nonzero]. apply digit_of_nonzero.
+      assert (n < 10)%N by (apply N.div_small_iff in E; lia).
+      rewrite N.mod_small by assumption. lia.
+    + rewrite N_to_str_aux_acc.
+      assert (Hq : (0 < n / 10 < 2 ^ N.of_nat f)%N).
+      { split; [now apply N.neq_0_lt_0|]. rewrite Nat2N.inj_succ, N.pow_succ_r' in Hn.
+        assert (n / 10 <= n / 2)%N by (apply N.div_le_compat_l; lia).
+        assert (n / 2 < 2 ^ N.of_nat f)%N by (apply N.div_lt_upper_bound; lia). lia. }
+      specialize (IH _ Hq). destruct (N_to_str_aux f (n / 10) []); [contradiction|exact IH].
+Qed.
+
+Lemma N_to_str_head n : n <> 0%N -> head_nonzero (N_to_str n).
+Proof.
+  intros Hn. unfold N_to_str. apply N_to_str_aux_head. split; [lia|].
+  rewrite Nat2N.inj_succ, N2Nat.id.
+  destruct n as [|p]; [congruence|]. apply N.log2_spec. lia.
+Qed.
+
+Lemma nat_to_str_plain n : n <> 0 -> plain_index (nat_to_str n) = true.
+Proof.
+  intros Hn. unfold plain_index. pose proof (nat_to_str_digits n) as D.
+  assert (H : head_nonzero (nat_to_str n)) by (apply N_to_str_head; lia).
+  destruct (nat_to_str n) as [|c r]; [contradiction|]. cbn [head_nonzero] in H. now rewrite H, D.
+Qed.
+
+Lemma nat_to_str_plain_0 : plain_index (nat_to_str 0) = false.
+Proof. reflexivity. Qed.
+
+Lemma plain_index_py_int s : plain_index s = true -> py_int_ok s = true /\ py_int_val s = digits_val s.
+Proof.
+  unfold plain_index. destruct s as [|c r] eqn:E; [discriminate|]. intros H.
+  apply andb_prop in H. destruct H as [_ H]. apply digits_py_int; [discriminate|exact H].
+Qed.
+
+(* positions start at 1: <p>_0 is no child name *)
+Lemma valid_child_name_idx p i q : i <> 0 ->
   valid_child_name (Some (name_idx p i)) (Some q) = streqb (upper p) (upper q).
 Proof.
-  unfold valid_child_name. rewrite rsplit_us_name_idx, nat_to_str_py_int. reflexivity.
+  intros Hi. unfold valid_child_name. rewrite rsplit_us_name_idx, nat_to_str_plain by exact Hi. reflexivity.
 Qed.
+
+Lemma valid_child_name_idx_0 p q : valid_child_name (Some (name_idx p 0)) (Some q) = false.
+Proof. unfold valid_child_name. rewrite rsplit_us_name_idx. reflexivity. Qed.
 
 Lemma valid_child_name_none q : valid_child_name None q = false.
 Proof. reflexivity. Qed.
